@@ -1,6 +1,8 @@
 """C09 - hash, hash array, list, pools, recycle array, key-value, AVL match their abstract data types.
 T2: hand-written Gallina models (coq/C09) + correspondence run against the real libsc on the same operation
-histories; T1: the hash table's resize arithmetic is regenerated from /repo (Gen/HashResize.v) and used by the model.
+histories; T1: the hash table's resize arithmetic is regenerated from /repo (Gen/HashResize.v) and used by the model;
+the bodies of the mstamp / mempool / list / hash array / recycle array / key-value functions and the AVL loop bodies are
+regenerated too (Gen/ContainersC09.v, AvlStepsC09.v, KeyValueC09.v) and coq/C09/GenTies.v proves the models equal to them.
 The property oracle (plain Python reference ADTs, independent of the model) is evaluated on the implementation's
 output of every case.  Output of one operation = `judged | info`; only `judged` (observables named by the property)
 is compared between model and implementation, `info` (slot counts, resize counters, iteration order, item numbering)
@@ -433,8 +435,96 @@ def oracle_avl(params, ops, outs):
     end_ok(tail[1:])
 
 
+def oracle_aseq(params, ops, outs):
+    """AVL tree with caller-chosen positions: reference = a Python list"""
+    withfree = params[0]
+    items = []
+    freed = 0
+    for n, (op, (j, info)) in enumerate(zip(ops, outs)):
+        o = op[0]
+        need(j and j[0] == o, "op %d: result tag %r for op %r" % (n, j[:1], o))
+        if o in ("P", "N"):
+            u = op[1]
+            it = "%x.%x" % (op[2], op[3])
+            if u < len(items):
+                items.insert(u if o == "P" else u + 1, it)
+            elif o == "P":
+                items.append(it)          # node NULL: avl_insert_before appends
+            else:
+                items.insert(0, it)       # node NULL: avl_insert_after prepends
+            need(len(j) == 2 and int(j[1], 16) == len(items), "op %d: avl_count %s after positional insert, the sequence has %d items" % (n, j[1:], len(items)))
+        elif o == "D":
+            u = op[1]
+            if u < len(items):
+                need(j[1] == "1" and j[2] == items[u], "op %d: avl_delete_node(avl_at(%d)) returns %s, item %d of the sequence is %s" % (n, u, j[1:3], u, items[u]))
+                items.pop(u)
+                freed += 1
+            else:
+                need(j[1] == "0", "op %d: delete beyond the end returns an item" % n)
+            need(int(j[-1], 16) == len(items), "op %d: avl_count %s after delete, length %d" % (n, j[-1], len(items)))
+        elif o == "a":
+            u = op[1]
+            need(j[1] == (items[u] if u < len(items) else "-"), "op %d: avl_at(%d) gives %s, item %d of the sequence is %s" % (n, u, j[1], u, items[u] if u < len(items) else None))
+        elif o == "x":
+            u = op[1]
+            need(j[1] == ("%x" % u if u < len(items) else "-"), "op %d: avl_index(avl_at(%d)) gives %s" % (n, u, j[1]))
+        elif o == "c":
+            need(int(j[1], 16) == len(items), "op %d: avl_count %s, length %d" % (n, j[1], len(items)))
+            need(j[2] == "1", "op %d: the tree is inconsistent (stored counts, parent pointers or prev/next links)" % n)
+        elif o in ("f", "t"):
+            need(int(j[1], 16) == len(items) and j[2:] == items, "op %d: %s is not the sequence" % (n, {"f": "avl_foreach", "t": "the head/next list"}[o]))
+        elif o == "b":
+            need(int(j[1], 16) == len(items) and j[2:] == items[::-1], "op %d: the tail/prev list is not the reversed sequence" % n)
+        elif o == "e":
+            need(j[1:] == ([items[0], items[-1]] if items else ["-", "-"]), "op %d: head/tail are %s" % (n, j[1:]))
+        elif o == "z":
+            freed += len(items)
+            items = []
+            need(j[1] == "0", "op %d: avl_count %s after avl_free_nodes" % (n, j[1]))
+    tail = outs[len(ops):]
+    freed += len(items)
+    need(tail and tail[0][0] == ["Z", "%x" % (freed if withfree else 0)], "freeitem was called %s times, %d items left the tree" % (tail[0][0][1:] if tail else "?", freed))
+    end_ok(tail[1:])
+
+
+def oracle_mlist(params, ops, outs):
+    """two lists on one allocator: reference = two independent Python lists; the allocator count (info field) must be
+    pre + both lengths as long as nothing was unlinked"""
+    pre = params[0]
+    ss = [[], []]
+    unlinked = False
+    for n, (op, (j, info)) in enumerate(zip(ops, outs)):
+        o = op[0]
+        s = ss[1 if op[1] else 0]
+        need(j and j[0] == o, "op %d: result tag %r for op %r" % (n, j[:1], o))
+        ret = 0
+        if o == "p":
+            s.insert(0, op[2])
+        elif o == "q":
+            s.append(op[2])
+        elif o == "n":
+            s.insert(op[2] + 1, op[3])
+        elif o == "m":
+            ret = s.pop(op[2] + 1)
+        elif o == "o":
+            ret = s.pop(0)
+        elif o in ("x", "u"):
+            del s[:]
+            unlinked = unlinked or o == "u"
+        elif o == "d":
+            need([int(x, 16) for x in j[1:]] == [len(s)] + s, "op %d: traversal of list %d gives %s, the sequence is %s" % (n, op[1], j[1:], [hx(x) for x in s]))
+            continue
+        exp = [o, hx(ret), hx(len(s)), hx(s[0]) if s else "-", hx(s[-1]) if s else "-"]
+        need(j == exp, "op %d on list %d: (returned data, elem_count, first, last) = %s, the sequence says %s" % (n, op[1], j[1:], exp[1:]))
+        if not unlinked:
+            need(int(info, 16) == pre + len(ss[0]) + len(ss[1]), "op %d: the shared allocator counts %s items, the two lists and the third user hold %d" % (
+                n, info, pre + len(ss[0]) + len(ss[1])))
+    tail = outs[len(ops):]
+    need(len(tail) == 1 and tail[0][0] == ["E", "0"], "end of case: %s (other list or foreign item disturbed, memory not balanced or allocator count wrong)" % [" ".join(t[0]) for t in tail])
+
+
 ORACLES = {"hash": oracle_hash, "pool": oracle_pool, "uc": oracle_uc, "list": oracle_list,
-           "harr": oracle_harr, "rec": oracle_rec, "kv": oracle_kv, "avl": oracle_avl}
+           "harr": oracle_harr, "rec": oracle_rec, "kv": oracle_kv, "avl": oracle_avl, "aseq": oracle_aseq, "mlist": oracle_mlist}
 
 
 # ----------------------------------------------------------------------------------------------
@@ -495,6 +585,28 @@ def legal(container, params, ops):
                     n -= 1
                 elif o in ("x", "u"):
                     n = 0
+            return True
+        if container == "mlist":
+            ns = [0, 0]
+            for op in ops:
+                o = op[0]
+                w = 1 if op[1] else 0
+                if o in ("p", "q"):
+                    ns[w] += 1
+                elif o == "n":
+                    if op[2] >= ns[w]:
+                        return False
+                    ns[w] += 1
+                elif o == "m":
+                    if op[2] + 1 >= ns[w]:
+                        return False
+                    ns[w] -= 1
+                elif o == "o":
+                    if ns[w] == 0:
+                        return False
+                    ns[w] -= 1
+                elif o in ("x", "u"):
+                    ns[w] = 0
             return True
         if container == "rec":
             n = 0
@@ -992,6 +1104,114 @@ def gen_avl_random(rng, nops):
     return mk("avl", [mode, rng.randrange(2)], ops)
 
 
+def gen_aseq(rng, nops, style="rand", top=0):
+    """AVL tree as a sequence.  Positions are aimed at the case split of ins_before / ins_after / del_at: both ends, beyond the
+    end (node NULL), nodes with and without a child on the side of the new leaf (any inner position), draining to empty and refilling."""
+    ops = []
+    n = 0
+    tag = [0]
+
+    def pos(kind):
+        r = rng.random()
+        if n == 0 or r < 0.08:
+            return n + rng.randrange(3)            # NULL node
+        if r < 0.25:
+            return 0
+        if r < 0.42:
+            return n - 1
+        return rng.randrange(n)
+
+    def ins(u=None, o=None):
+        nonlocal n
+        tag[0] += 1
+        ops.append((o or rng.choice("PN"), pos("i") if u is None else u, rng.randrange(1 << 16), tag[0]))
+        n += 1
+
+    def dele(u=None):
+        nonlocal n
+        u = pos("d") if u is None else u
+        ops.append(("D", u))
+        if u < n:
+            n -= 1
+    if style == "rand":
+        while len(ops) < nops:
+            r = rng.random()
+            if r < 0.45:
+                ins()
+            elif r < 0.70:
+                dele()
+            elif r < 0.80:
+                ops.append(("a", pos("a")))
+            elif r < 0.87:
+                ops.append(("x", pos("x")))
+            elif r < 0.97:
+                ops.append((rng.choice("cftbe"),))
+            else:
+                ops.append(("z",))
+                n = 0
+    else:
+        # grow to `top` (front / back / middle / random positions), check, drain to empty in a chosen order, refill
+        for k in range(top):
+            u = {"front": 0, "back": n, "mid": n // 2, "rand": None}[style]
+            ins(u, {"front": "P", "back": rng.choice("PN") if n == 0 else "P", "mid": rng.choice("PN"), "rand": None}[style])
+            if k % 97 == 0:
+                ops.append(("c",))
+        ops += [("c",), ("f",), ("t",), ("b",), ("e",)]
+        for k in range(0, top, max(1, top // 25)):
+            ops += [("a", k), ("x", k)]
+        ops += [("a", top), ("x", top + 1)]
+        order = rng.choice(["front", "back", "mid", "rand"])
+        while n > 0:
+            dele({"front": 0, "back": n - 1, "mid": n // 2, "rand": rng.randrange(n)}[order])
+            if n % 89 == 0:
+                ops.append(("c",))
+        ops += [("c",), ("f",), ("e",), ("D", 0)]
+        for k in range(min(top, 40)):
+            ins()
+        ops += [("c",), ("t",), ("b",)]
+    ops += [("c",), ("f",)]
+    return mk("aseq", [rng.randrange(2)], ops)
+
+
+def gen_mlist(rng, nops):
+    """two lists on one allocator: interleaved operations so that links freed by one list are recycled by the other
+    (the freed stack of the pool is shared), drains to empty and refills, resets while the other list is non-empty"""
+    pre = rng.choice([0, 1, 3, 260])
+    ops = []
+    ns = [0, 0]
+    v = 0
+    burst = 0
+    w = 0
+    for _ in range(nops):
+        if burst == 0:
+            w = rng.randrange(2)
+            burst = rng.choice([1, 1, 2, 5])
+        burst -= 1
+        n = ns[w]
+        r = rng.random()
+        v += 1
+        if r < 0.15:
+            ops.append(("p", w, v)); ns[w] += 1
+        elif r < 0.30:
+            ops.append(("q", w, v)); ns[w] += 1
+        elif r < 0.46 and n > 0:
+            ops.append(("n", w, rng.choice([0, n - 1, rng.randrange(n)]), v)); ns[w] += 1
+        elif r < 0.62 and n > 1:
+            ops.append(("m", w, rng.choice([0, n - 2, rng.randrange(n - 1)]))); ns[w] -= 1
+        elif r < 0.80 and n > 0:
+            ops.append(("o", w, rng.randrange(2))); ns[w] -= 1
+        elif r < 0.92:
+            ops.append(("d", rng.randrange(2)))
+        elif r < 0.97:
+            ops.append(("x", w)); ns[w] = 0
+        elif r < 0.975:
+            ops.append(("u", w)); ns[w] = 0
+        else:
+            ops.append(("q", w, v)); ns[w] += 1
+    ops += [("d", 0), ("d", 1)]
+    return mk("mlist", [pre], ops)
+
+
 def gen_cases(ctx):
     rng = ctx.rng
     q = ctx.quick
@@ -1006,6 +1226,8 @@ def gen_cases(ctx):
     # lists
     for _ in range(150 if q else 3000):
         cases.append(gen_list(rng, rng.choice([15, 60, 200, 500])))
+    for _ in range(120 if q else 3000):
+        cases.append(gen_mlist(rng, rng.choice([15, 60, 200, 600])))
     # hash: full grow/shrink cycles across both resize directions (255 -> 1019 -> 4075 -> 1019 -> 255 slots)
     cyc = [(1, HASH_PARAMS[0], 4200), (0, HASH_PARAMS[4], 4100), (1, HASH_PARAMS[3], 1300), (0, HASH_PARAMS[1], 4090),
            (1, HASH_PARAMS[8], 4100)]
@@ -1037,6 +1259,12 @@ def gen_cases(ctx):
         cases.append(gen_avl_cycle(rng, mode, rng.randrange(2), top, order))
     for _ in range(250 if q else 6000):
         cases.append(gen_avl_random(rng, rng.choice([15, 50, 150, 500])))
+    # AVL tree as a sequence (positions chosen by the caller)
+    for style, top in [("front", 600), ("back", 600), ("mid", 700), ("rand", 1500), ("front", 33), ("back", 64), ("mid", 9)] + (
+            [] if q else [("rand", 12000), ("front", 5000), ("mid", 6000)]):
+        cases.append(gen_aseq(rng, 0, style, top))
+    for _ in range(150 if q else 4000):
+        cases.append(gen_aseq(rng, rng.choice([12, 40, 120, 400])))
     return cases
 
 
@@ -1248,6 +1476,8 @@ def run(ctx):
     for c in cases[:: max(1, len(cases) // 5)][:5]:
         ctx.sample({"case": c[:300]})
     ctx.cov["trusted_base"] = ["tools/c2g translator and clang-14's JSON AST for the hash resize arithmetic (the generated constants are used by the model that is run against libsc)",
+                               "the AST rewrites of tools/c2g/groups_C09.py (mk_rw: pointer aliases of struct members, hoisting of prefix increments, split of chained "
+                               "assignments, calls as ghost outputs with opaque addresses of struct members) used for the 43 slices of ContainersC09 / AvlStepsC09 / KeyValueC09",
                                "tools/harness/c09_harness.c: derives item identities, overlap and content checks from the pointers libsc returns; "
                                "reads the two fields of the opaque struct sc_keyvalue through a redeclared layout (counts only); walks the AVL "
                                "nodes to check counts, parent and prev/next pointers",
@@ -1263,8 +1493,13 @@ def run(ctx):
 
 
 UNPROVED = ["sc_hash_array_rip is run (memory balance, ripped contents) but has no model operation of its own",
-            "avl_insert_before / avl_insert_after / avl_insert_top called directly by the user, avl_fixup_node, avl_init_node / avl_insert_node with "
-            "caller-owned nodes: not modelled (only avl_insert / avl_delete / avl_delete_node through search)",
+            "avl_fixup_node and avl_insert_node with a caller-owned node: not modelled (avl_insert_before / _after / _top with a node chosen by the "
+            "caller and avl_delete_node on a node are modelled by AvlSeqModel.v, sequence semantics)",
+            "T1: the pointer rotations of avl_rebalance / avl_unlink_node are not sliced (c2g has no heap: an access path through a pointer that is "
+            "reassigned inside the slice would be mistranslated); tied by the correspondence run (tree root and height compared) and the structural "
+            "self-check; not sliced either: the loops of sc_hash_lookup / insert_unique / remove / foreach / truncate / unlink, sc_keyvalue_set_* "
+            "(SC_EXECUTE_ASSERT_TRUE around a call), sc_keyvalue_newv (va_arg)",
+            "shared allocator: proved for two lists plus a third user holding items; hash tables sharing an allocator are modelled by the link count only",
             "AVL balance (height logarithmic in the count) is a performance property and is not claimed; the unsigned 32-bit wrap of node counts is not modelled",
             "sc_hash_function_string itself is not modelled: the key-value theorem quantifies over every hash function on keys",
             "sc_list / sc_hash statistics printing, sc_*_memory_used: not modelled",
